@@ -9,7 +9,7 @@ targets=[]
 log=sh('git','-C','/repo','log','--format=%H %s').stdout.splitlines()
 fixmap={'source line':['C17','C02'],'constraint name':['C17'],'ParseParameters panics':['C20','C04'],'nil pointers and invalid':['C09','C05'],'only count rows':['C05'],
  'extended query errors':['C06'],'Close removes':['C07','C06'],'NULL parameters':['C08'],'aborted COPY':['C13'],'oversized message received during COPY':['C13','C10'],
- 'password is rejected':['C01'],'stop consuming commands':['C19'],'unknown describe type':['C02'],'binary COPY rows':['C14','C04'],'own type map':['C15'],'Close is safe':['C16']}
+ 'password is rejected':['C01'],'stop consuming commands':['C19'],'unknown describe type':['C02'],'binary COPY rows':['C14','C04'],'own type map':['C15'],'Close is safe':['C16'],'statement and portal cache errors':['C06']}
 for line in log:
     h,s=line.split(' ',1)
     if not s.startswith('fix:'): continue
